@@ -1315,17 +1315,23 @@ class DataFieldRecordArray(
         """
         (size, prefix) = get_byte_size_prefix(sys.getsizeof(self))
 
+        # An array without fields has no longest field name.
         max_field_name_len = np.max(
-            [len(fname) for fname in self._field_name_list])
+            [len(fname) for fname in self._field_name_list], initial=0)
 
         # Generates a pretty string representation of the given field name.
         def _pretty_str_field(name):
             field = self._data_fields[name]
+            if len(field) == 0:
+                # A field without entries has no minimum and maximum value.
+                (vmin, vmax) = ('n/a', 'n/a')
+            else:
+                (vmin, vmax) = (f'{np.min(field):.3e}', f'{np.max(field)}')
             s = (f'{name.ljust(max_field_name_len)}: '
                  '{'
                  f'dtype: {str(field.dtype)}, '
-                 f'vmin: {np.min(field):.3e}, '
-                 f'vmax: {np.max(field)}'
+                 f'vmin: {vmin}, '
+                 f'vmax: {vmax}'
                  '}')
             return s
 
